@@ -13,25 +13,53 @@ open Hand
 
 theorem throw_bind' {α β : Type} (f : α → Exec β) (e : Fault) : ((throw e : Exec α) >>= f) = throw e := rfl
 
-/-- otherwise it panics (never anything else) -/
-theorem zeroed_panics_otherwise (sizeT len : Nat) (h : ¬ (sizeT ≠ 0 ∧ 64 % sizeT = 0)) :
+/-- a request that fits `isize::MAX` bytes needs fewer than `usize::MAX` chunks -/
+theorem fits_chunks {sizeT len : Nat} (h : fits sizeT len) : ¬ (usizeMod ≤ len / (64 / sizeT) + 1) := by
+  unfold fits isizeMax at h
+  unfold usizeMod
+  omega
+
+/-- otherwise it panics (never anything else): element sizes that do not divide 64 (zero-sized types included), and
+requests whose chunks would occupy more than `isize::MAX` bytes (`len = usize::MAX` with 64-byte elements included) -/
+theorem zeroed_panics_otherwise (sizeT len : Nat) (h : ¬ (sizeT ≠ 0 ∧ 64 % sizeT = 0 ∧ fits sizeT len)) :
     zeroed sizeT len = throw Fault.panic := by
   unfold zeroed umod udiv assertEq chunkBytes
   by_cases h0 : sizeT = 0
   · rw [if_pos h0]; rfl
-  · have h1 : ¬ (64 % sizeT = 0) := fun h1 => h ⟨h0, h1⟩
-    rw [if_neg h0]
+  · rw [if_neg h0]
     simp only [pure_bind]
-    rw [if_neg h1]; rfl
+    by_cases h1 : 64 % sizeT = 0
+    · have hf : ¬ fits sizeT len := fun hf => h ⟨h0, h1, hf⟩
+      have h2 : 64 / sizeT ≠ 0 := by
+        intro hz
+        have := Nat.div_add_mod 64 sizeT
+        rw [hz, h1] at this; omega
+      rw [if_pos h1]
+      simp only [pure_bind]
+      rw [if_neg h0]
+      simp only [pure_bind]
+      rw [if_neg h2]
+      simp only [pure_bind]
+      by_cases h3 : usizeMod ≤ len / (64 / sizeT) + 1
+      · rw [if_pos h3]; rfl
+      · rw [if_neg h3]
+        try simp only [pure_bind]
+        have h4 : isizeMax < (len / (64 / sizeT) + 1) * 64 := by
+          unfold fits at hf; omega
+        rw [if_pos h4]; rfl
+    · rw [if_neg h1]; rfl
 
 /-- the successful case, computed -/
-theorem zeroed_eq (sizeT len : Nat) (h0 : sizeT ≠ 0) (h1 : 64 % sizeT = 0) :
+theorem zeroed_eq (sizeT len : Nat) (h0 : sizeT ≠ 0) (h1 : 64 % sizeT = 0) (hf : fits sizeT len) :
     zeroed sizeT len = pure { len := len, allocatedSize := 64 / sizeT * (len / (64 / sizeT) + 1),
                               numChunks := len / (64 / sizeT) + 1 } := by
   have h2 : 64 / sizeT ≠ 0 := by
     intro h
     have := Nat.div_add_mod 64 sizeT
     rw [h, h1] at this; omega
+  have h3 := fits_chunks hf
+  have h4 : ¬ (isizeMax < (len / (64 / sizeT) + 1) * 64) := by
+    unfold fits at hf; omega
   unfold zeroed umod udiv assertEq chunkBytes
   rw [if_neg h0]
   simp only [pure_bind]
@@ -40,24 +68,30 @@ theorem zeroed_eq (sizeT len : Nat) (h0 : sizeT ≠ 0) (h1 : 64 % sizeT = 0) :
   rw [if_neg h0]
   simp only [pure_bind]
   rw [if_neg h2]
-  rfl
+  simp only [pure_bind]
+  rw [if_neg h3]
+  try simp only [pure_bind]
+  rw [if_neg h4]
+  try rfl
 
-/-- construction succeeds exactly for element sizes that divide 64 (in particular not for zero-sized types) -/
+/-- construction succeeds exactly for element sizes that divide 64 (in particular not for zero-sized types) and
+requests of at most `isize::MAX` bytes -/
 theorem zeroed_ok_iff (sizeT len : Nat) :
-    (∃ b, zeroed sizeT len = pure b) ↔ (sizeT ≠ 0 ∧ 64 % sizeT = 0) := by
+    (∃ b, zeroed sizeT len = pure b) ↔ (sizeT ≠ 0 ∧ 64 % sizeT = 0 ∧ fits sizeT len) := by
   constructor
   · intro ⟨b, hb⟩
-    by_cases h : sizeT ≠ 0 ∧ 64 % sizeT = 0
+    by_cases h : sizeT ≠ 0 ∧ 64 % sizeT = 0 ∧ fits sizeT len
     · exact h
     · rw [zeroed_panics_otherwise sizeT len h] at hb
       cases hb
-  · intro ⟨h0, h1⟩
-    exact ⟨_, zeroed_eq sizeT len h0 h1⟩
+  · intro ⟨h0, h1, hf⟩
+    exact ⟨_, zeroed_eq sizeT len h0 h1 hf⟩
 
-/-- **C16 (sizes).** For a size dividing 64 and ANY length: the buffer has exactly `len` elements, its
+/-- **C16 (sizes).** For a size dividing 64 and ANY length that can be allocated at all (every other one is refused with a
+panic, `zeroed_panics_otherwise`): the buffer has exactly `len` elements, its
 backing storage holds at least `len` elements and exactly its reported capacity `allocated_size`, which is
 itself at least `len`; the storage is a whole number of 64-byte chunks. -/
-theorem zeroed_sizes (sizeT len : Nat) (h0 : sizeT ≠ 0) (h1 : 64 % sizeT = 0) :
+theorem zeroed_sizes (sizeT len : Nat) (h0 : sizeT ≠ 0) (h1 : 64 % sizeT = 0) (hf : fits sizeT len) :
     ∃ b, zeroed sizeT len = pure b ∧ b.len = len
       ∧ len * sizeT ≤ b.storageBytes ∧ b.allocatedSize * sizeT = b.storageBytes
       ∧ len ≤ b.allocatedSize ∧ b.storageBytes % chunkAlign = 0 := by
@@ -66,7 +100,7 @@ theorem zeroed_sizes (sizeT len : Nat) (h0 : sizeT ≠ 0) (h1 : 64 % sizeT = 0) 
     apply Nat.pos_of_ne_zero
     intro h; rw [h] at hdvd; omega
   refine ⟨{ len := len, allocatedSize := 64 / sizeT * (len / (64 / sizeT) + 1), numChunks := len / (64 / sizeT) + 1 }, ?_, rfl, ?_, ?_, ?_, ?_⟩
-  · exact zeroed_eq sizeT len h0 h1
+  · exact zeroed_eq sizeT len h0 h1 hf
   · -- len ≤ npc * (len / npc + 1), then multiply by sizeT
     show len * sizeT ≤ (len / (64 / sizeT) + 1) * 64
     have hlt : len < 64 / sizeT * (len / (64 / sizeT) + 1) := by
@@ -97,5 +131,14 @@ example : zeroed 4 10 = pure { len := 10, allocatedSize := 16, numChunks := 1 }
     ∧ zeroed 3 5 = throw Fault.panic ∧ zeroed 0 5 = throw Fault.panic
     ∧ zeroed 64 0 = pure { len := 0, allocatedSize := 1, numChunks := 1 } := by
   refine ⟨rfl, rfl, rfl, rfl, rfl⟩
+
+/-- the edge the fix 2309454 closed, and its neighbours: `len = usize::MAX` (64-byte elements: the chunk count would wrap),
+2^63 one-byte elements, the first `u64` length whose byte size wraps — all refused; the largest request that fits is not -/
+example : zeroed 64 (2 ^ 64 - 1) = throw Fault.panic ∧ zeroed 1 (2 ^ 63) = throw Fault.panic
+    ∧ zeroed 8 (2 ^ 61) = throw Fault.panic ∧ zeroed 8 (2 ^ 64 - 1) = throw Fault.panic
+    ∧ (∃ b, zeroed 1 (2 ^ 63 - 128) = pure b) := by
+  refine ⟨zeroed_panics_otherwise _ _ (by decide), zeroed_panics_otherwise _ _ (by decide), zeroed_panics_otherwise _ _ (by decide),
+    zeroed_panics_otherwise _ _ (by decide), ?_⟩
+  exact (zeroed_ok_iff 1 (2 ^ 63 - 128)).mpr ⟨by decide, by decide, by decide⟩
 
 end Cfavml.Thm.C16
